@@ -263,8 +263,9 @@ class Renderer:
             key = secret
         else:
             key = dns.tsig.Key(keyname, secret, algorithm)
+        # (the key's algorithm: when *secret* is a Key, *algorithm* is not used)
         tsig = _make_tsig(  # pyright: ignore
-            keyname, algorithm, 0, fudge, b"", id, tsig_error, other_data
+            keyname, key.algorithm, 0, fudge, b"", id, tsig_error, other_data
         )
         tsig, _ = dns.tsig.sign(s, key, tsig[0], int(time.time()), request_mac)
         self._write_tsig(tsig, keyname)
@@ -295,8 +296,9 @@ class Renderer:
             key = secret
         else:
             key = dns.tsig.Key(keyname, secret, algorithm)
+        # (the key's algorithm: when *secret* is a Key, *algorithm* is not used)
         tsig = _make_tsig(  # pyright: ignore
-            keyname, algorithm, 0, fudge, b"", id, tsig_error, other_data
+            keyname, key.algorithm, 0, fudge, b"", id, tsig_error, other_data
         )
         tsig, ctx = dns.tsig.sign(
             s, key, tsig[0], int(time.time()), request_mac, ctx, True
